@@ -103,10 +103,13 @@ def rule_semrules(crate, dispositions):
     for m in walk(ee["body"]):
         if m.get("k") == "Match" and str(m.get("src")) == "Normal":
             for a in m["arms"]:
-                if "guard" in a and any(p.get("variant") == "Scalar" for p in walk(a["pat"])):
-                    names = {x["name"] for x in walk(a["guard"]) if x.get("k") == "MethodCall" and x["name"].startswith("is_")}
-                    if any(x.get("k") == "MethodCall" and x["name"] == "fresh_type_variable" for x in walk(a["body"])):
-                        poly |= names
+                if not any(p.get("variant") == "Scalar" for p in walk(a["pat"])):
+                    continue
+                if "guard" in a and any(x.get("k") == "MethodCall" and x["name"] == "fresh_type_variable" for x in walk(a["body"])):
+                    poly |= {x["name"] for x in walk(a["guard"]) if x.get("k") == "MethodCall" and x["name"].startswith("is_")}
+                for i_ in walk(a["body"]):
+                    if i_.get("k") == "If" and any(x.get("k") == "MethodCall" and x["name"] == "fresh_type_variable" for x in walk(i_["then"])):
+                        poly |= {x["name"] for x in walk(i_["cond"]) if x.get("k") == "MethodCall" and x["name"].startswith("is_")}
     cv = crate.find_fn("quantity::Quantity::convert_to")
     agn = set()
     body = peel(cv["body"])
